@@ -2,7 +2,7 @@
 THEOREMS = {"C04": [...], "C09": [...], "C10": [...], "C11": [...], "C12": [...]} with fully qualified Lean names)."""
 import importlib
 
-GROUPS = ["pat_reg_seq1", "pat_reg_seq2", "pat_reg_scalar", "pat_reg_chance", "pat_reg_misc"]
+GROUPS = ["pat_reg_seq1", "pat_reg_seq2", "pat_reg_scalar", "pat_reg_chance", "pat_reg_misc", "pat_reg_ext2"]
 MODULES = []
 for _g in GROUPS:
     try:
